@@ -235,6 +235,10 @@ def run_e1_property(prop, tier, harness_module, log=print):
                 (p.stdout + p.stderr)[-3000:])
             return EXIT_HARNESS
         e2 = json.load(open(e2out))
+        if e2.get('untranslatable'):
+            log('inconclusive: E2 cannot encode the current resolver table '
+                '(%s) -- nothing it covers is counted as held' %
+                e2['untranslatable'])
         for q in e2['queries']:
             log('  E2 %-6s %6.2fs %s%s' % (
                 q['result'], q['solver_s'], q['name'],
@@ -341,8 +345,8 @@ def run_e1_property(prop, tier, harness_module, log=print):
         'samples': samples or [{'note': 'no condition finished'}],
         'exhaustive': (bool(main_jobs) or e2 is not None)
         and len(confirmed) == len(main_jobs)
-        and (e2 is None or all(q['result'] == q['expect']
-                               for q in e2['queries'])),
+        and (e2 is None or (not e2.get('untranslatable') and all(
+            q['result'] == q['expect'] for q in e2['queries']))),
         'explanation': (
             'states = execution paths explored by CrossHair over the real '
             'yatiml code (each ends in a distinct symbolic state); '
@@ -375,6 +379,7 @@ def run_e1_property(prop, tier, harness_module, log=print):
                                        if q['result'] == q['expect']),
             'solver_s': round(sum(q['solver_s'] for q in e2['queries']), 2),
             'validation': e2.get('validation'),
+            'untranslatable': e2.get('untranslatable'),
             'cvc5': e2.get('cvc5')},
         'known_findings_reported': known_lines,
         'regions_assumed_away': exclude,
